@@ -57,6 +57,11 @@ func travScenarios() []*tScenario {
 		8: {Claim: 8, Nodes: []tContact{tc(2, 2), tc(3, 3), tc(4, 4), tc(5, 5)}},
 		2: {Claim: 2}, 3: {Claim: 1}, 4: {Claim: 4}, 5: {Claim: 5}, 6: {Claim: 1}},
 		Adds: [][]tContact{{tc(0, 8), tc(0, 2), tc(0, 6)}}, RejectAddr: map[int]bool{2: true}, RejectID: map[byte]bool{1: true}, Polls: 1, Expect: []byte{4, 5}})
+	// runs of adjacent filtered addresses in a seed batch and in a reply
+	add(&tScenario{Name: "filter-runs", K: 2, Alpha: 2, Peers: map[int]tPeer{
+		8: {Claim: 8, Nodes: []tContact{tc(4, 13), tc(5, 14), tc(6, 15), tc(2, 2)}}, 3: {Claim: 3}, 2: {Claim: 2},
+		11: {Claim: 1}, 12: {Claim: 1}, 13: {Claim: 1}, 14: {Claim: 1}, 15: {Claim: 1}},
+		Adds: [][]tContact{{tc(0, 8), tc(5, 11), tc(6, 12), tc(0, 3)}}, RejectAddr: map[int]bool{11: true, 12: true, 13: true, 14: true, 15: true}, Polls: 1, Expect: []byte{2, 3}})
 	add(&tScenario{Name: "mapped-cycle", Mapped: true, K: 3, Alpha: 2, Peers: map[int]tPeer{
 		1: {Claim: 1, Nodes: []tContact{tc(2, 2), tc(3, 3)}}, 2: {Claim: 2, Nodes: []tContact{tc(1, 1), tc(3, 3)}}, 3: {Claim: 3, Nodes: []tContact{tc(1, 1), tc(2, 2)}}},
 		Adds: [][]tContact{{tc(1, 1)}}, Polls: 1, Expect: []byte{1, 2, 3}})
